@@ -18,7 +18,13 @@ package main
 // key order of go-json) and decodes it itself; <info-hex>/<header-hex> are informative only.  Data for the model:
 // <floats> = "F=" + list of <IEEE bits>:<hex of strconv.FormatFloat(x,'e',-1,64)> (shortest digits: Go's strconv) or "F=-";
 // <lib> = the answers of go-json for every candidate span [s,e) (header[s]='{', header[e-1]='}') of the header the
-// real parser sees: "s:e:x" (Unmarshal error) or "s:e:<digest of decoded map without definition>:<-|d<hex of definition>>".
+// real parser sees: "s:e:x" (Unmarshal error) or "s:e:<digest of decoded map without definition>:<-|d<hex of definition>>";
+// a digest is <by-value digest>/<digest of the dump that keeps Go's int and float64 apart>.
+//
+//	obik <text-hex>                                             real __match__key__ + ParseFastSeqOBIHeader (no-key texts)
+//	cli fasta|fastq <flags> <n> (<id-hex> <seq-hex> <qual-hex|-> <annspec>)*n [+ <floats>]
+//	                                                            real Format*Batch -> `obiconvert` subprocess -> `obiconvert` again
+//	                                                            flags: letters of z (-Z, gunzipped by the harness) s (stdin) x (--solexa: file written with offset 64) or "-"
 import (
 	"bytes"
 	stdjson "encoding/json"
@@ -315,6 +321,61 @@ func c02Dump(v interface{}) string {
 	return "?" + fmt.Sprintf("%T", v)
 }
 
+// c02DumpK is c02Dump with Go's number kinds kept apart: "I<n>" for every integer type, "F<value>" for floats.
+// With allFloat the integers are rendered as the float64 of the same value (what the reader gives back).
+func c02DumpK(v interface{}, allFloat bool) string {
+	if v == nil {
+		return "Z"
+	}
+	num := func(x float64) string {
+		if x == 0 {
+			return "F0"
+		}
+		return "F" + strconv.FormatFloat(x, 'f', -1, 64)
+	}
+	rv := reflect.ValueOf(v)
+	switch rv.Kind() {
+	case reflect.String:
+		return "S" + hx([]byte(rv.String()))
+	case reflect.Bool:
+		if rv.Bool() {
+			return "B1"
+		}
+		return "B0"
+	case reflect.Int, reflect.Int8, reflect.Int16, reflect.Int32, reflect.Int64:
+		if allFloat {
+			return "F" + strconv.FormatInt(rv.Int(), 10)
+		}
+		return "I" + strconv.FormatInt(rv.Int(), 10)
+	case reflect.Uint, reflect.Uint8, reflect.Uint16, reflect.Uint32, reflect.Uint64:
+		if allFloat {
+			return "F" + strconv.FormatUint(rv.Uint(), 10)
+		}
+		return "I" + strconv.FormatUint(rv.Uint(), 10)
+	case reflect.Float32, reflect.Float64:
+		return num(rv.Float())
+	case reflect.Map:
+		var parts []string
+		for _, k := range rv.MapKeys() {
+			parts = append(parts, hx([]byte(fmt.Sprint(k.Interface())))+"="+c02DumpK(rv.MapIndex(k).Interface(), allFloat))
+		}
+		sort.Strings(parts)
+		return "M{" + strings.Join(parts, ",") + "}"
+	case reflect.Slice, reflect.Array:
+		var parts []string
+		for i := 0; i < rv.Len(); i++ {
+			parts = append(parts, c02DumpK(rv.Index(i).Interface(), allFloat))
+		}
+		return "L[" + strings.Join(parts, ",") + "]"
+	case reflect.Interface, reflect.Ptr:
+		if rv.IsNil() {
+			return "Z"
+		}
+		return c02DumpK(rv.Elem().Interface(), allFloat)
+	}
+	return "?" + fmt.Sprintf("%T", v)
+}
+
 func c02Digest(s string) string {
 	h := fnv.New32a()
 	h.Write([]byte(s))
@@ -336,7 +397,8 @@ func c02AnnDigest(ann obiseq.Annotation) (string, string) {
 			m[k] = v
 		}
 	}
-	return c02Digest(c02Dump(m)), def
+	// value digest "/" kind-aware digest (the model reads every number as a float64)
+	return c02Digest(c02Dump(m)) + "/" + c02Digest(c02DumpK(m, false)), def
 }
 
 // c02Lib: what go-json answers on every candidate span of header (the model's parameter).
@@ -776,6 +838,8 @@ func (c02) Gen(rng *rand.Rand, tier string, emit func(string)) {
 		rec2("", l)
 	}
 
+	c02GenExtra(rng, tier, emit)
+
 	n := 1500
 	c02MaxDepth = 3
 	if tier == "thorough" {
@@ -952,6 +1016,10 @@ func (c02) Exec(c string) (string, []Fail) {
 	}
 
 	switch {
+	case f[0] == "obik" && len(f) == 2:
+		return c02ExecObik(f, fail, &fails)
+	case f[0] == "cli" && len(f) >= 4:
+		return c02ExecCli(c, f, fail, &fails)
 	case f[0] == "hdr" && len(f) == 2:
 		hb, ok := unhx(f[1])
 		if !ok {
@@ -1204,6 +1272,18 @@ func (c02) Exec(c string) (string, []Fail) {
 			got := c02Dump(map[string]interface{}(b.Annotations()))
 			if want != got {
 				fail("rt."+fm+".annotations", "annotations %s read back as %s (title %q)", want, got, infos[j])
+			}
+			// kinds (theorem reread_numbers): every float64 is read back as a float64, every int as the float64 of the
+			// same value — the re-read map is the original with its ints turned into float64
+			wantK := c02DumpK(map[string]interface{}(rc.ann), true)
+			gotK := c02DumpK(map[string]interface{}(b.Annotations()), false)
+			if wantK != gotK {
+				fail("rt."+fm+".kinds", "annotations %s (ints as float64) read back as %s", wantK, gotK)
+			}
+			if c02DumpK(map[string]interface{}(rc.ann), false) != gotK {
+				stat("kind:int->float64")
+			} else {
+				stat("kind:identical")
 			}
 		}
 		// oracle: write(read(write r)) = write r, byte for byte (when both shifts agree)
